@@ -730,7 +730,7 @@ let () = register "c04" (fun line ->
     else
       let fs = L.filter (fun x -> x <> "") (S.split_on_char ' ' it) in
       match fs with
-      | "q" :: body ->
+      | ("q" | "qx" as kind) :: body ->
         let (body, hook) =
           let rec split acc = function
             | "@ask" :: rest -> (L.rev acc, steps_of (S.concat " " rest))
@@ -758,7 +758,8 @@ let () = register "c04" (fun line ->
                r
              | (cs2, _) -> cs := cs2; Resp.Err (bytes_of_ocaml "LOOP")) subs in
            pending := !hook_left;
-           replies := val_string (Dispatch.assemble_reply a rs) :: !replies;
+           (* qx: the command took effect once, its reply was lost with the connection *)
+           replies := (if kind = "qx" then "LOST" else val_string (Dispatch.assemble_reply a rs)) :: !replies;
            execs := string_of_int (L.length subs) :: !execs)
       | ["p"; cnt; hx] ->
         let key = bytes_of_hex hx in
@@ -794,12 +795,19 @@ let () = register "c07" (fun line ->
   let nn = int_of_string f.(0) in
   let layout = Array.make 16384 0 in
   L.iter (fun r -> Scanf.sscanf r "%d-%d=%d" (fun lo hi n -> for s = lo to hi do layout.(s) <- n done)) (S.split_on_char ',' f.(1));
-  let hosts = L.init nn n_of_int in
+  (* rep=<m>,<m>..: replicas (nodes nn, nn+1, ..) of the masters named; configured hosts as well *)
+  let reps = if Array.length f > 2 && S.length f.(2) > 4 && S.sub f.(2) 0 4 = "rep="
+    then L.filter_map (fun x -> match int_of_string_opt x with Some m when m < nn -> Some m | _ -> None) (S.split_on_char ',' (S.sub f.(2) 4 (S.length f.(2) - 4)))
+    else [] in
+  let replica_of = Hashtbl.create 4 in   (* master -> its replicas' node indices, oldest first *)
+  L.iteri (fun i m -> Hashtbl.replace replica_of m ((try Hashtbl.find replica_of m with Not_found -> []) @ [nn + i])) reps;
+  let hosts = L.init (nn + L.length reps) n_of_int in
   let layout0 = Array.copy layout in
   let st = ref (Heal.hinit (fun s -> n_of_int layout0.(int_of_n s))) in
   let last = Hashtbl.create 8 in
   let outs = ref [] in
-  let gone = ref [] and next_node = ref nn in
+  let gone = ref [] and next_node = ref (nn + L.length reps) in
+  let downs = ref [] in
   let step o = let (s', r) = Heal.do_hop RedisSem.sem c04_slot hosts !st o in st := s'; r in
   L.iter (fun it ->
     let fs = L.filter (fun x -> x <> "") (S.split_on_char ' ' it) in
@@ -820,8 +828,25 @@ let () = register "c07" (fun line ->
           | None -> outs := "?" :: !outs)
        | _ -> outs := "NOT-SINGLE-KEY" :: !outs)
     | ["kill"; _] -> ignore (step (Heal.HKill (nat 1)))
-    | ["down"; _] -> ignore (step (Heal.HDown (nat 1)))
-    | ["up"; _] -> ignore (step (Heal.HUp (nat 1)))
+    | ["down"; n] -> downs := int_of_string n :: !downs; ignore (step (Heal.HDown (nat 1)))
+    | ["up"; n] -> downs := L.filter (fun x -> x <> int_of_string n) !downs; ignore (step (Heal.HUp (nat 1)))
+    | ["promote"; n] ->
+      (* the master goes down for good; its replica takes over its slots under its own address *)
+      let o = int_of_string n in
+      (match (try Hashtbl.find replica_of o with Not_found -> []) with
+       | r :: rest when not (L.mem o !gone) && not (L.mem o !downs) ->
+         Hashtbl.replace replica_of o rest;
+         gone := o :: !gone;
+         ignore (step (Heal.HDown (n_of_int o)));
+         let sl = ref 0 in
+         while !sl < 16384 do
+           if layout.(!sl) = o then begin
+             let lo = !sl in
+             while !sl < 16384 && layout.(!sl) = o do layout.(!sl) <- r; incr sl done;
+             ignore (step (Heal.HLay (n_of_int lo, n_of_int (!sl - 1), n_of_int r)))
+           end else incr sl
+         done
+       | _ -> ())
     | ["lay"; lo; hi; n] ->
       for sl = int_of_string lo to int_of_string hi do layout.(sl) <- int_of_string n done;
       ignore (step (Heal.HLay (nat 1, nat 2, nat 3)))
